@@ -7,6 +7,7 @@ package verifflow
 import (
 	"context"
 	"fmt"
+	"os"
 	"sort"
 	"strings"
 	"testing"
@@ -32,11 +33,33 @@ type flowParams struct {
 	Bundle   int      `json:"persister_bundle"`
 	Faults   bool     `json:"store_faults"`
 	ReadMenu []string `json:"read_menu"`
+	Blocked  []string `json:"blocked"` // connectors whose ack gate is never granted (unresponsive plugin)
+	Restart  bool     `json:"restart"` // start the pipeline again after the stop completed
+	Retries  int      `json:"max_retries"`
 }
 
 func (p flowParams) name() string {
-	return fmt.Sprintf("flow/%s/%dx%d/r%d/b%d/ack=%s/dlq=%s/w%d.%d/stop=%s/faults=%v", p.Engine, p.Sources, p.Dests, p.Records, p.Batch,
-		strings.Join(p.AckMenu, ","), strings.Join(p.DLQMenu, ","), p.Window, p.Thresh, p.Stop, p.Faults)
+	n := fmt.Sprintf("flow/%s/%dx%d/r%d/b%d/ack=%s/dlq=%s/w%d.%d/stop=%s", p.Engine, p.Sources, p.Dests, p.Records, p.Batch,
+		strings.Join(p.AckMenu, ","), strings.Join(p.DLQMenu, ","), p.Window, p.Thresh, p.Stop)
+	if p.Faults {
+		n += "/storefaults"
+	}
+	if len(p.ReadMenu) > 0 {
+		n += "/read=" + strings.Join(p.ReadMenu, ",")
+	}
+	if len(p.Blocked) > 0 {
+		n += "/blocked=" + strings.Join(p.Blocked, ",")
+	}
+	if p.Restart {
+		n += "/restart"
+	}
+	if p.Bundle > 0 {
+		n += fmt.Sprintf("/bundle%d", p.Bundle)
+	}
+	if p.Retries != 0 {
+		n += fmt.Sprintf("/retries%d", p.Retries)
+	}
+	return n
 }
 
 func (p flowParams) topology() stack.Topology {
@@ -78,7 +101,14 @@ func flowScenario(p flowParams) verifkit.Scenario {
 		Params: p,
 		Setup: func(x *verifkit.Exec) {
 			plugins := fakes.NewPlugins(x.W)
-			st, err := stack.New(x.W, plugins, nil, stack.Options{Engine: engineOf(p.Engine), PersisterBundle: p.Bundle, FaultCommits: p.Faults, FaultSets: p.Faults})
+			rec := stack.DefaultRecovery()
+			if p.Retries != 0 {
+				rec.MaxRetries = int64(p.Retries)
+				if p.Retries < 0 {
+					rec.MaxRetries = 0
+				}
+			}
+			st, err := stack.New(x.W, plugins, nil, stack.Options{Engine: engineOf(p.Engine), PersisterBundle: p.Bundle, FaultCommits: p.Faults, FaultSets: p.Faults, Recovery: rec})
 			if err != nil {
 				panic(err)
 			}
@@ -117,6 +147,22 @@ func flowScenario(p flowParams) verifkit.Scenario {
 						err = st.LC.WaitPipeline(stack.PipelineID)
 						x.W.Log("ctl", "wait.ret", -1, errStr(err))
 					}
+				}})
+			}
+			if len(p.Blocked) > 0 {
+				x.Filter = func(alt string) bool {
+					for _, b := range p.Blocked {
+						if strings.HasPrefix(alt, "g:"+b+".") {
+							return false
+						}
+					}
+					return true
+				}
+			}
+			if p.Restart {
+				x.AddControl(&verifkit.Control{Name: "restart", AfterPrevReturned: true, Do: func() {
+					err := st.LC.Start(x.Ctx, stack.PipelineID)
+					x.W.Log("ctl", "restart.ret", -1, errStr(err))
 				}})
 			}
 			x.OnFinal(func() {
@@ -175,111 +221,6 @@ func outcomeOf(x *verifkit.Exec) string {
 	return sb.String()
 }
 
-// checkFlow evaluates the data-path oracles (C01, C04, C05, parts of C07) on the event log.
-func checkFlow(p flowParams, x *verifkit.Exec) []verifkit.Violation {
-	var out []verifkit.Violation
-	evs := x.W.Events()
-	bad := func(key, format string, a ...any) {
-		out = append(out, verifkit.Violation{Key: key, Text: fmt.Sprintf(format, a...)})
-	}
-	if x.Panic != "" {
-		bad("harness/panic", "panic during execution: %s", x.Panic)
-	}
-	dests := []string{}
-	for d := 0; d < p.Dests; d++ {
-		dests = append(dests, fmt.Sprintf("d%d", d))
-	}
-	type key struct {
-		src string
-		idx int
-	}
-	// per open-epoch of a source
-	epoch := map[string]int{}
-	type epKey struct {
-		src string
-		ep  int
-	}
-	emitted := map[epKey][]int{}
-	acked := map[epKey][]int{}
-	destOK := map[string]map[key]bool{}  // dest -> record -> positively acked (so far)
-	dlqOK := map[key]bool{}              // dlq acked the record (so far)
-	dlqRecv := map[key]int{}             // DLQ writes per record in the current run
-	recvOrder := map[string]map[string][]int{} // dest -> src -> indices in receive order (per epoch reset)
-	for _, d := range dests {
-		destOK[d] = map[key]bool{}
-		recvOrder[d] = map[string][]int{}
-	}
-	recvOrder["dlq"] = map[string][]int{}
-	for _, e := range evs {
-		isSrc := strings.HasPrefix(e.Comp, "s") && len(e.Comp) == 2
-		switch {
-		case isSrc && e.Kind == "open":
-			epoch[e.Comp]++
-			for _, d := range dests {
-				recvOrder[d][e.Comp] = nil
-			}
-			recvOrder["dlq"][e.Comp] = nil
-			for k := range dlqRecv {
-				if k.src == e.Comp {
-					delete(dlqRecv, k)
-				}
-			}
-		case isSrc && e.Kind == "emit":
-			ek := epKey{e.Comp, epoch[e.Comp]}
-			emitted[ek] = append(emitted[ek], e.Idx)
-		case isSrc && e.Kind == "ack":
-			ek := epKey{e.Comp, epoch[e.Comp]}
-			acked[ek] = append(acked[ek], e.Idx)
-			k := key{e.Comp, e.Idx}
-			// C01: every destination confirmed, or the DLQ did
-			if !dlqOK[k] {
-				for _, d := range dests {
-					if !destOK[d][k] {
-						bad("C01/ack-before-destination", "source %s was told record %d is acknowledged before destination %s (or the DLQ) confirmed it (event #%d)", e.Comp, e.Idx, d, e.Seq)
-						break
-					}
-				}
-			}
-			// C04: acks are a prefix of the emitted sequence, in order, no repeats
-			n := len(acked[ek])
-			if n > len(emitted[ek]) || emitted[ek][n-1] != e.Idx {
-				bad("C04/ack-order", "source %s epoch %d: ack sequence %v is not a prefix of the emitted sequence %v (event #%d)", e.Comp, ek.ep, acked[ek], emitted[ek], e.Seq)
-			}
-		case e.Kind == "recv" && e.Comp != "dlq":
-			src := strings.SplitN(e.Arg, "|", 2)[0]
-			seq := recvOrder[e.Comp][src]
-			if len(seq) > 0 && seq[len(seq)-1] >= e.Idx {
-				bad("C05/destination-order", "destination %s received record %d of %s after %v within one run (event #%d)", e.Comp, e.Idx, src, seq, e.Seq)
-			}
-			recvOrder[e.Comp][src] = append(seq, e.Idx)
-		case e.Kind == "recv" && e.Comp == "dlq":
-			src := strings.SplitN(e.Arg, "|", 2)[0]
-			k := key{src, e.Idx}
-			dlqRecv[k]++
-			if dlqRecv[k] > 1 {
-				bad("C07/dlq-twice", "record %d of %s was written to the DLQ %d times within one run (event #%d)", e.Idx, src, dlqRecv[k], e.Seq)
-			}
-			seq := recvOrder["dlq"][src]
-			if len(seq) > 0 && seq[len(seq)-1] >= e.Idx {
-				bad("C07/dlq-order", "DLQ received record %d of %s after %v (event #%d)", e.Idx, src, seq, e.Seq)
-			}
-			recvOrder["dlq"][src] = append(seq, e.Idx)
-			parts := strings.Split(e.Arg, "|")
-			if len(parts) < 4 || parts[2] == "" || parts[3] == "" {
-				bad("C07/dlq-metadata", "DLQ record for %s:%d lacks the failing component / error (%q)", src, e.Idx, e.Arg)
-			}
-		case e.Kind == "ack" && e.Comp == "dlq":
-			dlqOK[key{strings.SplitN(e.Arg, "|", 2)[0], e.Idx}] = true
-		case e.Kind == "ack" && destOK[e.Comp] != nil:
-			destOK[e.Comp][key{strings.SplitN(e.Arg, "|", 2)[0], e.Idx}] = true
-		}
-	}
-	if x.Hang != "" {
-		bad("hang/goroutine-leak", "goroutines of the engine were still blocked after the execution was wound down: %s\n%s", x.Hang, x.LeakStacks)
-	}
-	return out
-}
-
 var _ = context.Background
 
 func runFlow(t *testing.T, rep *verifkit.Report, p flowParams, bound int, deadline time.Time) {
@@ -287,8 +228,9 @@ func runFlow(t *testing.T, rep *verifkit.Report, p flowParams, bound int, deadli
 	e.Explore()
 }
 
-func TestVerifFlowSmoke(t *testing.T) {
-	rep := verifkit.NewReport("C01", "smoke")
+func TestVerifFlow(t *testing.T) {
+	prop := os.Getenv("VERIF_PROPERTY")
+	rep := verifkit.NewReport(prop, "flow")
 	defer func() {
 		if err := rep.Write(); err != nil {
 			t.Fatal(err)
@@ -297,9 +239,28 @@ func TestVerifFlowSmoke(t *testing.T) {
 			t.Fail()
 		}
 	}()
-	deadline := verifkit.Deadline(60*time.Second, 10*time.Minute)
-	for _, eng := range []string{"v1", "v2"} {
-		p := flowParams{Engine: eng, Sources: 1, Records: 2, Batch: 1, Dests: 2, AckMenu: []string{"ok", "nack"}, Window: 0, Thresh: 0, Stop: "stopwait"}
-		runFlow(t, rep, p, 1, deadline)
+	list := scenariosFor(prop)
+	if len(list) == 0 {
+		t.Fatalf("no flow scenarios registered for %q", prop)
 	}
+	deadline := verifkit.Deadline(150*time.Second, 25*time.Minute)
+	for _, sc := range list {
+		scn := flowScenario(sc.p)
+		inner := scn.Check
+		scn.Check = func(x *verifkit.Exec) []verifkit.Violation { return filterFor(prop, inner(x)) }
+		e := &verifkit.Explorer{T: t, Rep: rep, Scn: scn, MaxBound: sc.bound(), Deadline: deadline}
+		e.Explore()
+	}
+}
+
+// filterFor keeps the violations that belong to the property being decided (every property has its own check over
+// the same scenarios) plus harness-level findings.
+func filterFor(prop string, vs []verifkit.Violation) []verifkit.Violation {
+	var out []verifkit.Violation
+	for _, v := range vs {
+		if prop == "SMOKE" || strings.HasPrefix(v.Key, prop+"/") || strings.HasPrefix(v.Key, "harness/") || (strings.HasPrefix(v.Key, "hang/") && (prop == "C09" || prop == "C11" || prop == "C12" || prop == "C06")) {
+			out = append(out, v)
+		}
+	}
+	return out
 }
